@@ -23,7 +23,7 @@ EXPLANATION = (
     "predicates by constant folding.")
 NOT_DECIDED = ("limit enforcement across a run (v1 ':n' limits are counted at run time), the word predicates' own bodies "
                "on arbitrary text (they are one-line any() over words, evaluated only through the sample text)")
-TECHNIQUE = "static analysis: abstract evaluation of v1 check() over complete truth tables, of v1 parsing on decorated literals, and of the dialect selector over its full predicate decision table; table-agreement rules against the third-party token table"
+TECHNIQUE = "static analysis: abstract evaluation of v1 check() over complete truth tables, of v1 parsing on decorated literals, and of the dialect selector over its full predicate decision table; table-agreement rules against the third-party token table; static constant propagation of the string-level glue (the source interpreted on enumerated literal inputs, stdlib calls folded) against oracles written in the rule"
 
 
 def run(chk, ix, tier):
